@@ -175,13 +175,18 @@ PROPS = {
     },
     "C06": {
         "lean_modules": ["AvroProofs.C06", "AvroProofs.C01"],
-        "theorems": ["Avro.C06.decode_conforms", "Avro.C06.decode_reencode", "Avro.C01.decode_encode"],
+        "theorems": ["Avro.C06.decode_conforms", "Avro.C06.decode_reencode", "Avro.C06.decode_framed", "Avro.C06.truncated_datum_is_error",
+                     "Avro.C06.truncated_encoding_is_error", "Avro.C06.prefix_free", "Avro.C01.decode_encode"],
         "partial": [
             {"theorem": "Avro.C06.decode_conforms",
              "excluded_by": "wfS s / EnvOk env (what the parser and ResolvedSchema guarantee); 36 <= lim. (The five facts about the model's num-bigint / "
                             "uuid-text functions that used to be a hypothesis are proved: AvroProofs/Lemmas/Prim.lean, primFacts)"},
-            {"theorem": "(not yet stated) truncation_errors / decoders_agree",
-             "excluded_by": "covered only by the implementation oracle of the correspondence run so far"},
+            {"theorem": "Avro.C06.truncated_datum_is_error",
+             "excluded_by": "nothing: proved for every schema, every byte string that is exactly one datum (canonical or not) and every cut point, from "
+                            "decode_framed (the decoder consumes a prefix and does not depend on what follows). It is a statement about the MODEL decoder after "
+                            "the repair of D7 (boolean / string / union at end of input); the tie to decode_internal is the differential run on every truncation"},
+            {"theorem": "(not stated) the generic decoder and the schema-aware deserializer agree on what a complete datum is",
+             "excluded_by": "the schema-aware deserializer is not modelled; decided by the implementation oracle of the correspondence run (both decoders on every input)"},
         ],
         "harness": c06_runs,
         "projection": "okerr",
